@@ -590,7 +590,7 @@ theorem ProofD.challengeContribution_perm (o : SigOracle) (kid : String) (pk : P
     have hrsome : ∀ m, p.rangeProofs = some m → ∀ kv ∈ m, ∀ rp ∈ kv.2, rp.isSome := by
       intro m hm kv hkv
       rw [ProofD.wellFormed_iff] at hw
-      exact (hw.2.2.2.2 kv (by rw [hm]; exact hkv)).2
+      exact (hw.2.2.2.2.1 kv (by rw [hm]; exact hkv)).2
     apply GoE.Rel.bind_same; intro z
     apply GoE.Rel.bind_same; intro a
     apply GoE.Rel.bind_same; intro c
